@@ -91,6 +91,9 @@ func Build(n *Node, r *rand.Rand, shapes func(string)) secs2.Item {
 		return secs2.U8(args...)
 	case 'F':
 		args := floatArgs(n.Uints, n.W, r, shapes)
+		if n.F64 != nil {
+			args = inexactArgs(n.F64, r, shapes)
+		}
 		if r.Intn(2) == 0 {
 			return secs2.NewFloatItem(n.W, args...)
 		}
@@ -670,4 +673,24 @@ func floatArgs(us []uint64, w int, r *rand.Rand, shapes func(string)) []any {
 		}
 		return out
 	}
+}
+
+// inexactArgs passes float64 values that are NOT exactly representable in binary32 to an F4
+// constructor (as float64 scalars, []float64, or decimal strings): the item narrows them at
+// encode time.
+func inexactArgs(vs []float64, r *rand.Rand, shapes func(string)) []any {
+	shapes("F/inexact64")
+	var out []any
+	for _, c := range chunks(len(vs), r) {
+		if c[1]-c[0] == 1 {
+			if r.Intn(2) == 0 {
+				out = append(out, vs[c[0]])
+			} else {
+				out = append(out, strconv.FormatFloat(vs[c[0]], 'g', -1, 64))
+			}
+		} else {
+			out = append(out, append([]float64(nil), vs[c[0]:c[1]]...))
+		}
+	}
+	return out
 }
